@@ -181,6 +181,17 @@ m("review-trim-revert", "pytest_plugin.py", '            trim_approved = "trim" 
 m("persist-unreferenced", "pytest_plugin.py", "                    for external_name in used:\n                        state().storage.persist(external_name)", "                    for external_name in used:\n                        state().storage.persist(external_name)\n            for f in list(state().storage.directory.glob('*-new.*')) if state().storage.directory.exists() else []:\n                state().storage.persist(f.name.replace('-new', ''))", ["C04", "C13"], "every outsourced file is persisted at session end, referenced or not")
 
 
+# ---- C13
+m("no-prune", "pytest_plugin.py", "    state().storage.prune_new_files()", "    pass", ["C13"], "-new files are never pruned at session start")
+m("trim-ignores-participation", "_find_external.py", "    for filename in state().files_with_snapshots:\n        result |= used_externals_in(pathlib.Path(filename).read_text(\"utf-8\"))", "    for filename in list(state().files_with_snapshots)[:1]:\n        result |= used_externals_in(pathlib.Path(filename).read_text(\"utf-8\"))", ["C13", "C04"], "only the first participating file protects its externals from trim")
+m("lookup-first-on-collision", "_external.py", '        if len(files) > 1:\n            raise HashError(f"hash collision files={sorted(f.name for f in  files)}")', "        pass", ["C13"], "ambiguous prefix resolves to the first match")
+m("lookup-missing-none", "_external.py", '        if not files:\n            raise HashError(f"hash {name!r} is not found in the DiscStorage")', '        if not files:\n            files = sorted(self.directory.iterdir())', ["C13"], "missing hash resolves to some other file")
+m("save-wrong-name", "_external.py", '        path = hash + "-new" + suffix', '        path = hash[:-1] + "0" + "-new" + suffix', ["C13"], "stored name is not the content hash")
+m("persist-fullhash-revert", "_external.py", '        if "*" not in name:', "        if False:", ["C13"], "revert of the full-hash persist fix")
+m("persist-before-reference-check", "pytest_plugin.py", "                    for external_name in used:\n                        state().storage.persist(external_name)", "                    pass\n            for f in (list(state().storage.directory.glob('*-new.*')) if state().storage.directory.exists() else []):\n                f.rename(f.with_name(f.name.replace('-new', '')))", ["C13"], "everything outsourced is persisted when any change is applied")
+m("outsource-overwrites-persisted", "_external.py", "    if not storage.lookup_all(name):", "    if True:", [], "data is saved as -new although already persisted (harmless duplicate, pruned later; informational)")
+
+
 def make_copy(mut):
     base = os.environ.get("VERIF_TMP") or ("/dev/shm" if os.path.isdir("/dev/shm") else tempfile.gettempdir())
     d = Path(tempfile.mkdtemp(prefix="mutant-", dir=base))
